@@ -38,6 +38,9 @@ MUTATIONS = {
                      + signed'(opr_d[hex_pkg::MEM_ADDR_WIDTH-3:0])};""", "violation"),
     "fetch_lane": ("C03", "verilog/memory.sv", "{3'b000, i_f_addr[1:0]} << 3", "{3'b000, i_f_addr[1:0]} << 2", "violation"),
     "hex_we_wiring": ("C03", "verilog/hex.sv", ".i_d_we    (req_d_we),", ".i_d_we    (req_d_valid),", "violation"),
+    # the state of the tree before repo commit d715191: a store under reset
+    "memory_write_unqualified": ("C03", "verilog/memory.sv", "if (!i_rst && i_d_valid && i_d_we) begin",
+                                 "if (i_d_valid && i_d_we) begin", "violation"),
     "svc_decode_sub": ("C03", "verilog/processor.sv", "instr.operand == hex_pkg::SVC;", "instr.operand == hex_pkg::SUB;", "violation"),
     "casez_wildcard_add": ("C03", "verilog/processor.sv", """        unique case(instr.operand)
           hex_pkg::ADD: areg_d = {areg_q + breg_q};""", """        unique casez(instr.operand)
@@ -61,8 +64,6 @@ MUTATIONS = {
     "h_we_rewrite": ("C03", "verilog/processor.sv",
                      "assign o_d_we = instr.opcode inside {hex_pkg::STAM, hex_pkg::STAI};",
                      "assign o_d_we = (instr.opcode == hex_pkg::STAM) || (instr.opcode == hex_pkg::STAI);", "ok-or-nofail"),
-    "h_memory_reset_qualified": ("C03", "verilog/memory.sv", "if (i_d_valid && i_d_we) begin",
-                                 "if (!i_rst && i_d_valid && i_d_we) begin", "ok-or-nofail"),
     "h_v_reorder_case": ("C16", "verilog/processor.v",
                          """			sv2v_cast_024B2('h0): areg_d = i_d_data;
 			sv2v_cast_024B2('h3): areg_d = opr_d;""",
